@@ -111,6 +111,8 @@ class Witness(EmbitBase):
         for i in range(num):
             l = compact.read_from(stream)
             data = stream.read(l)
+            if len(data) != l:
+                raise ValueError("Cant read %d bytes" % l)
             items.append(data)
         return cls(items)
 
